@@ -1,5 +1,6 @@
+import DriverOps.C10
 import DriverOps.Core
 open Lean
 namespace DriverOps
-def tables : List (String → Array Json → R (Option Json)) := [core]
+def tables : List (String → Array Json → R (Option Json)) := [c10, core]
 end DriverOps
